@@ -85,10 +85,16 @@ def install_token_model(it: Interp, types: Dict[str, int], n: int, fn_names: Lis
 
     def h_coerce(it2, info, args, kwargs):
         v = args[0]
-        if isinstance(v, str) and v.startswith("#"):
-            if it2.atom(f"malformed-number({v})"):
+        if isinstance(v, str) and v.lstrip("-").startswith("#") and v.lstrip("-")[1:].isdigit():
+            body_ = v.lstrip("-")
+            if it2.atom(f"malformed-number({body_})"):
                 raise AbsRaise("ValueError", "mathy_core/tokenizer.py:coerce_to_number", "malformed number such as '1.2.3'")
-            return Num(("sym", f"n{v[1:]}"))
+            signs = len(v) - len(body_)
+            if signs > 1:
+                # float("--1") / int("--1") are malformed
+                raise AbsRaise("ValueError", "mathy_core/tokenizer.py:coerce_to_number", f"malformed number {v!r}")
+            t = ("sym", f"n{body_[1:]}")
+            return Num(("neg", t) if signs else t)
         raise Unsupported(f"coerce_to_number({v!r})")
     it.hooks["mathy_core/tokenizer.py:coerce_to_number"] = h_coerce
 
@@ -474,7 +480,9 @@ def _describe(it: Interp, S: Summaries, kind: str, outcome) -> Any:
             for t in v.items:
                 if isinstance(t, Rec):
                     ty = t.fields.get("type")
-                    out.append(("sym", ty.cid) if isinstance(ty, SymChar) else ("lit", ty))
+                    val = t.fields.get("value")
+                    vd = ("text-of-token", val.idx) if isinstance(val, LazyTokenValue) else ("value", repr(val))
+                    out.append((("sym", ty.cid) if isinstance(ty, SymChar) else ("lit", ty)) + vd)
                 else:
                     out.append(("?", repr(t)))
             return ("tokens", tuple(out))
@@ -714,7 +722,7 @@ def _valid_worker(task):
             parser = it.instantiate(pcls, [], {})
             return it.call_function(m_parse, [parser, "T"], {})
         cfg = {"max_updepth": 0, "hooks": S.hooks(), "max_steps": 40000, "max_inline": 80}
-        res = explore(prog, body, cfg, max_paths=8)
+        res = explore(prog, body, cfg, max_paths=512)
         toks = [(t, i) for i, t in enumerate(seq)]
         status, ref = reference(toks)
         for p in res:
@@ -810,7 +818,7 @@ def _nearmiss_worker(task):
             parser = it.instantiate(pcls, [], {})
             return it.call_function(m_parse, [parser, "T"], {})
         cfg = {"max_updepth": 0, "hooks": S.hooks(), "max_steps": 40000, "max_inline": 80}
-        for p in explore(prog, body, cfg, max_paths=8):
+        for p in explore(prog, body, cfg, max_paths=512):
             toks = [(t, i) for i, t in enumerate(seq)]
             if p.outcome == "raise" and exc_in_contract(prog, p.exc.exc):
                 n_ok += 1
